@@ -1,18 +1,25 @@
 (* SrcTieArm.v — part of the source tie: the literal constants of the model's encoders ARE the ones found in the current Rust
    sources (gen/SrcConsts.v is regenerated from /repo/src by tools/const_translate.py on every run).  One file per group of
    constants, so that a changed constant breaks only the property files that depend on it. *)
-From Inj Require Import Base X86 EncAmd64 Os OsProofs Amd64Install EncArm64 EncArm.
+From Inj Require Import Base X86 EncAmd64 Os OsProofs Amd64Install EncArm64 EncArm A32.
 From Inj.gen Require Import SrcConsts.
 
-(* 32-bit ARM: the two sequences with the registers the source uses now, the padding word, the 2-mod-4 fix-up *)
+(* 32-bit ARM: the two sequences with the registers the source uses now, the padding NOP, the 2-mod-4 fix-up *)
 Definition SRC_RA : Z := (ARM_A32_BX - 0xE12FFF10).
-Definition SRC_RT : Z := ((ARM_T16_LDR_BX mod 65536) - 0x4800) / 256.
-Lemma src_arm_words : a32_ldr SRC_RA = ARM_A32_LDR /\ a32_bx SRC_RA = ARM_A32_BX /\ t16_ldr_bx SRC_RT = ARM_T16_LDR_BX /\
-  0 <= SRC_RA < 16 /\ 0 <= SRC_RT < 8 /\ ARM_T16_PAD = 0 /\ ARM_PATCH_SIZE = 12 /\ ARM_T16_NOP = [0xC0; 0x46] /\ ARM_ROTATE = 2.
+Definition SRC_RT : Z := ARM_T32_LDR_W / 2^28.                      (* Rt of ldr.w Rt,[pc,#4]: bits 12..15 of the second halfword *)
+Definition src_fixup_ok : bool :=                                  (* patch.copy_within(8..12, 6); patch[10] = 0xC0; patch[11] = 0x46 *)
+  match ARM_T32_FIXUP with [8; 12; 6; 10; 0xC0; 11; 0x46] => true | _ => false end.
+Lemma src_arm_words : a32_ldr SRC_RA = ARM_A32_LDR /\ a32_bx SRC_RA = ARM_A32_BX /\
+  t32_ldr_w SRC_RT = ARM_T32_LDR_W /\ t16_bx_nop SRC_RT = ARM_T16_BX_NOP /\
+  0 <= SRC_RA < 16 /\ 8 <= SRC_RT < 15 /\ ARM_PATCH_SIZE = 12 /\ src_fixup_ok = true.
 Proof. vm_compute. repeat split; congruence. Qed.
 Lemma src_arm_patch : forall src target, snd (arm_patch SRC_RA SRC_RT src target) =
   let is_thumb := Z.odd src in
   let src_ptr := if is_thumb then (src mod W32 - 1) mod W32 else src in
-  let patch := flat_map (le_bytes 4) (if is_thumb then [ARM_T16_LDR_BX; target mod W32; ARM_T16_PAD] else [ARM_A32_LDR; ARM_A32_BX; target mod W32]) in
-  if is_thumb && negb (src_ptr mod 4 =? 0) then ARM_T16_NOP ++ firstn (Z.to_nat (ARM_PATCH_SIZE - ARM_ROTATE)) patch else patch.
-Proof. intros. reflexivity. Qed.
+  let patch := flat_map (le_bytes 4) (if is_thumb then [ARM_T32_LDR_W; ARM_T16_BX_NOP; target mod W32] else [ARM_A32_LDR; ARM_A32_BX; target mod W32]) in
+  if is_thumb && negb (src_ptr mod 4 =? 0) then firstn 6 patch ++ skipn 8 patch ++ [0xC0; 0x46] else patch.
+Proof. intros. unfold arm_patch. change (8 <=? SRC_RT) with true. destruct (Z.odd src); cbn [andb]; [|reflexivity].
+  match goal with |- context[?a mod 4 =? 0] => destruct (a mod 4 =? 0) end; reflexivity. Qed.
+(* the scratch registers the source uses now are not among those a callee must preserve *)
+Lemma src_arm_scratch_ok : ~ In SRC_RA aapcs_preserved /\ ~ In SRC_RT aapcs_preserved.
+Proof. vm_compute. split; intros H; repeat (destruct H as [H|H]; [discriminate|]); exact H. Qed.
